@@ -24,6 +24,8 @@ CONSTANTS
   Weak_RejectSendersIgnored = FALSE
   Weak_DupOverwrites = FALSE
   Weak_RejectNotBlacklisted = TRUE
+  Weak_FormatNotBlacklisted = FALSE
+  Weak_NoSyncerLevelCheck = FALSE
 INIT Init
 NEXT Next
 INVARIANTS TrustedOnly VerifiedBeforeDone InOrder AsRecorded RefetchHonoured NeverReused
